@@ -9,7 +9,7 @@ seeds="$@"; [ -z "$seeds" ] && seeds=$(ls seeded)
 mkdir -p out/selftest; fail=0
 for s in $seeds; do
   p=${s%%-*}
-  git -C /repo apply seeded/$s/patch.diff || { echo "$s: patch does not apply"; fail=1; continue; }
+  git -C /repo apply /verif/seeded/$s/patch.diff || { echo "$s: patch does not apply"; fail=1; continue; }
   ./check $p quick > out/selftest/$s.txt 2>&1; rc=$?
   git -C /repo checkout -- .
   git -C /verif checkout -- evidence/$p.json 2>/dev/null; rm -rf replays/$p
